@@ -14,7 +14,7 @@ out = ['# Seeded defects and the check that reports them (quick tier, default se
        '| seed | round | reported by | discrepancy |', '|---|---|---|---|']
 own = sib = miss = 0
 for s in seeds:
-    rnd = {'a': 1, 'b': 1, 'c': 2, 'd': 2, 'e': 3, 'f': 3, 'g': 4, 'h': 4, 'i': 5, 'j': 5, 'k': 6, 'l': 6, 'm': 7, 'n': 7, 'o': 8, 'p': 8}.get(s[-1], '?')
+    rnd = {'a': 1, 'b': 1, 'c': 2, 'd': 2, 'e': 3, 'f': 3, 'g': 4, 'h': 4, 'i': 5, 'j': 5, 'k': 6, 'l': 6, 'm': 7, 'n': 7, 'o': 8, 'p': 8, 'q': 9, 'r': 9}.get(s[-1], '?')
     if s in rows:
         chk, kind, det = rows[s]
         if chk == s[:3]:
